@@ -17,7 +17,8 @@ CHECKS = {
         "differential runtime monitor: SIMD kernels vs double-double scalar reference, sentinel/canary buffers",
         "Every kernel of math::util (hook-exported, called with pulp Arch::Scalar and the detected AVX2 arch on sub-slices at "
         "offsets 0..7 inside canary-padded buffers) and every vector method of CpuMath is executed for all lengths 0..=130 x 8 "
-        "value classes and compared element by element (2 ulp, fused or unfused) or under a running error bound (reductions) "
+        "value classes (low-rank application with ranks going up and down on one math object; sums of squares of nearly cancelling vectors) "
+        "and compared element by element (2 ulp, fused or unfused) or under a running error bound (reductions) "
         "with a double-double reference; outputs are pre-filled with a sentinel NaN payload and inputs check-summed. "
         "Exhaustive over (n, offset, class, arch) in the thorough tier, random fillings per tuple.",
         "Trusted: the harness' double-double reference and error bounds; AVX-512 kernels are not compiled into this crate's "
@@ -33,8 +34,8 @@ CHECKS.update({
         "Real chains of all six presets are run for num_tune+30 draws over num_tune 0..=40 (exhaustive) and seeded values up to 2000, "
         "random step-size method / jitter / window fractions / switch, update frequencies / growth factors and three targets "
         "(divergent histories included); every draw is checked: Progress.tuning and the tuning statistic equal draw < num_tune, "
-        "construction never panics, no transformation change or update event after the configured start of the final step-size "
-        "window (+1 draw slack), step_size_bar bit-constant from draw num_tune-1, every later step size inside bar*[1-j,1+j].",
+        "construction never panics, no transformation change or update event from the exact start of the final step-size window "
+        "(same floating point expression as the strategy), also when a divergence is forced on draw num_tune-1 / num_tune / num_tune+1, step_size_bar bit-constant from draw num_tune-1, every later step size inside bar*[1-j,1+j].",
         "Observes only the public Chain API (Progress, statistics). The start of the final window is recomputed from the settings.",
         "DESIGN.md §3 C06",
     ),
@@ -46,7 +47,9 @@ CHECKS.update({
         "and divergences with and without a finite energy error) every draw's statistics are compared with Settings::stat_names/types/dims/event_dims: names and "
         "order, declared type, length = product of declared dims, non-event statistics on every draw or none (and following their "
         "option), event statistics only on event draws with their identifying fields, divergence fields <=> Progress.diverging, "
-        "transformation-update events <=> the next trajectory runs under a different transformation id, counters +1, chain constant.",
+        "transformation-update events <=> the next trajectory runs under a different transformation id, every transformation a draw starts "
+        "from was announced by an update event (also across a second set_position in the middle of a history and with num_tune = 0), a "
+        "change of the scales (hook read-back) always carries the event, counters +1, chain constant.",
         "Public API only. Option -> statistic mapping (gradient, unconstrained_draw, transformed_*, mass-matrix payload) is part of the oracle.",
         "DESIGN.md §3 C16",
     ),
@@ -98,7 +101,8 @@ CHECKS.update({
     "C03": (
         "exploration",
         "runtime monitor: per-draw invariants against a density evaluation log + U-turn audit of recorded trajectories (hook, scripted RNG)",
-        "Public API: chains of all six presets over 5 target families, dims 0..10, random maxdepth / mindepth / target time / energy limit; "
+        "Public API: chains of all six presets over 5 target families, dims 0..36, random maxdepth / mindepth / target time / energy limit / "
+        "step size method (dual averaging, Adam, fixed) / extra doublings; "
         "every draw must be the previous position or a position evaluated in that call, carry the logged logp / gradient, be reproducible by an "
         "independent density instance, satisfy index 0 <=> not moved, depth <= maxdepth, 2^depth-1 <= steps <= 2^(depth+1)-1, |index| <= 2^depth-1, "
         "steps = density evaluations, at least one step, finite energies. Audit: single transitions with a recording collector; the U-turn "
@@ -114,7 +118,8 @@ CHECKS.update({
     "C05": (
         "fault_enumeration",
         "fault injection at every density evaluation index x fault kind, runtime oracle on call results",
-        "A scenario (set_position + draws through warmup into sampling + 10 follow-up draws) per preset x kinetic/trajectory kind x "
+        "A scenario (set_position - retried once on the same chain when refused, as the sampler does - + draws through warmup into sampling + 10 "
+        "follow-up draws) per preset x kinetic/trajectory kind x option variant (extra doublings, fixed step, draw-only scale estimate) x "
         "dimension x (MCLMC) dynamic step size is run once fault-free; then every evaluation index is combined with each of 7 fault "
         "kinds (recoverable / unrecoverable error, NaN / +inf / -inf logp, NaN / inf gradient component) - exhaustive for single "
         "faults, seeded for pairs. Each call runs under catch_unwind. Oracles: no panic; the call evaluating an unrecoverable error "
@@ -174,7 +179,7 @@ CHECKS.update({
         "only with a full window (early size, then geometrically growing sizes) and only if another full window fits before the final "
         "step-size window, is not skipped when due, the window grows by the configured factor, nothing is fed in the final window, the first "
         "transformation change costs extra density evaluations (re-run search), and dual averaging replayed from the reported acceptance "
-        "statistics reproduces step_size_bar - with the symmetric statistic inside the final window.",
+        "statistics reproduces step_size_bar - with the symmetric statistic inside the final window; the same replay for the Adam method.",
         "+-1 draw slack on window boundaries; far-from-start divergent draws may count either way; before the final window either statistic is accepted in the replay.",
         "DESIGN.md §3 C09",
     ),
@@ -188,7 +193,8 @@ CHECKS.update({
         "fraction, dynamic step size, jitter, energy limit; iso / scaled / funnel targets; seeded recoverable faults at random evaluation "
         "indices) run over a Math wrapper that records every call: each esh_momentum_update has unit-norm momentum on entry and exit and "
         "equals the closed-form ESH update and kinetic energy change; array_normalize outputs have unit norm; non-divergent draws take "
-        "max(1, round(f L / eps)) steps for the step size in force (at least that many under dynamic retry); divergent draws leave the position "
+        "max(1, round(f L / eps)) steps for the step size in force (at least that many under dynamic retry) and report an energy change equal to the "
+        "sum of the kinetic energy changes of their ESH updates minus the change of the log density; divergent draws leave the position "
         "bit-identical and end with a freshly drawn (and normalised) momentum that is the state's momentum; the first ESH call happens exactly at "
         "draw floor(fraction * num_tune) after a fresh gaussian + normalise, and never reverts.",
         "The closed-form ESH reference is the formula documented on the Math trait, re-implemented in the harness.",
@@ -201,7 +207,7 @@ CHECKS.update({
         "exploration",
         "statistical runtime monitor: z-tests of moments / quantile coverage of adapted chains with replication stage; momentum-law tests at the Math boundary",
         "All combinations {Diag, LowRank} x {Euclidean, ExactNormal} x {DualAverage, Adam} x six target families with known moments (iso, "
-        "scaled with condition 1e6, correlated, AR(1), Student-t, Gumbel) x dims {1,2,10,50(,100)} run with default settings, several chains "
+        "scaled with condition 1e6, correlated, AR(1), Student-t, Gumbel, correlated with unequal scales) x dims {1,2,10,50(,100)} run with default settings, several chains "
         "each. Post-warmup means, variances and 10/50/90% quantile coverage are z-tested with batch-means standard errors (|z| > 7.5 flags); a "
         "flag counts only if three fresh seeds with 4x the draws flag the same statistic with the same sign. Gaussian targets with condition "
         "<= 100 must have no post-warmup divergence (also replicated). A delegating Math wrapper records the momentum draw of every trajectory "
@@ -217,7 +223,8 @@ CHECKS.update({
         "exploration",
         "runtime monitor on schedules: bitwise per-chain trace hashes of the real Sampler under perturbed schedules vs a single-core reference",
         "The real parallel Sampler runs with a recording storage backend (hook re-export of the storage traits). Every base configuration "
-        "(preset, num_tune, num_draws, num_chains, seed, target) is run once on one core without interference and then under variants: "
+        "(preset, num_tune, num_draws, num_chains, seed, target; model variants: Model::math consumes its RNG, all chains start from one point; one "
+        "20 000-dimensional model) is run once on one core without interference and then under variants: "
         "num_cores 1/2/3/16, a different number of chains, seeded yields and sleeps at 17 schedule points placed in the chain loop and the "
         "controller loop, per-chain density delays and random pause / resume / progress / flush / inspect / wait storms. Every statistic and "
         "draw value of every record is hashed bitwise; each chain's trace must equal the reference, chains of one run must differ pairwise. "
@@ -254,10 +261,11 @@ CHECKS.update({
     "C13": (
         "fault_enumeration",
         "fault injection into density / model / storage of the real Sampler; oracle on SamplerWaitResult and on every client call under catch_unwind + watchdog",
-        "Faults: unrecoverable logp error at a chosen evaluation (initialisation, first draw, warmup, warmup/sampling boundary, last draw) in one, "
+        "Faults: unrecoverable logp error at a chosen evaluation (initialisation, first draw, warmup, warmup/sampling boundary, last draw, inside the "
+        "re-run of the step size search) in one, "
         "two or several chains; recoverable logp errors; storage record_sample / finalize / initialize_trace_for_chain errors; Model::math error in "
-        "a chain or in the controller; init_position error; all 500 initial points invalid - crossed with presets, chain index, num_chains vs "
-        "num_cores, schedule perturbation and interleaved user commands (storm, wait, direct abort). Oracles: wait_timeout yields Err (never a "
+        "a chain or in the controller; init_position error; all 500 initial points invalid; a density that is never finite - crossed with presets, chain index, num_chains vs "
+        "num_cores, schedule perturbation and interleaved user commands (storm, wait, direct abort, progress polling). Oracles: wait_timeout yields Err (never a "
         "trace, never a panic in the calling thread, never a hang); recoverable errors end with a complete trace; no client call panics.",
         "abort() is only required not to panic or hang. Recoverable-error cases on NUTS presets use a fixed step size (known C05 finding in the re-run search).",
         "DESIGN.md §3 C13",
